@@ -28,6 +28,19 @@ type Solver struct {
 	Errors  int
 	timeout int // ms
 	last    string
+	// second opinion: when the primary answers unknown (time limit, error, killed), the same query -
+	// the whole assertion stack, tracked in frames - is put to another solver (lazily started)
+	AltName    string
+	AltTimeout int
+	alt        *Solver
+	altPending bool // alt holds a pushed copy of the stack that must be popped before the next command
+	altSat     bool // the last sat answer came from alt: models are read from it
+	frames     [][]string
+	AltQueries int
+	AltDecided int
+	Swaps      int
+	altStreak  int // consecutive queries the primary left unknown and alt decided
+	AltDur     time.Duration
 }
 
 func solverArgs(name string, timeoutMs int) (string, []string, []string) {
@@ -42,7 +55,17 @@ func solverArgs(name string, timeoutMs int) (string, []string, []string) {
 }
 
 func NewSolver(name string, timeoutMs int, logPath string) *Solver {
-	bin, args, pre := solverArgs(name, timeoutMs)
+	s := &Solver{Name: name, timeout: timeoutMs, frames: [][]string{nil}}
+	s.start()
+	if logPath != "" {
+		s.log, _ = os.Create(logPath)
+	}
+	return s
+}
+
+// start launches the solver process named s.Name and sends its preamble.
+func (s *Solver) start() {
+	bin, args, pre := solverArgs(s.Name, s.timeout)
 	c := exec.Command(bin, args...)
 	in, _ := c.StdinPipe()
 	out, _ := c.StdoutPipe()
@@ -50,27 +73,63 @@ func NewSolver(name string, timeoutMs int, logPath string) *Solver {
 	if err := c.Start(); err != nil {
 		panic(fmt.Sprintf("cannot start solver %s: %v", bin, err))
 	}
-	s := &Solver{Name: name, cmd: c, in: in, lines: make(chan string, 256), timeout: timeoutMs}
+	lines := make(chan string, 256)
+	s.cmd, s.in, s.lines, s.dead = c, in, lines, false
 	go func() {
 		rd := bufio.NewReaderSize(out, 1<<16)
 		for {
 			line, err := rd.ReadString('\n')
 			if line != "" {
-				s.lines <- line
+				lines <- line
 			}
 			if err != nil {
-				close(s.lines)
+				close(lines)
 				return
 			}
 		}
 	}()
-	if logPath != "" {
-		s.log, _ = os.Create(logPath)
-	}
 	for _, l := range pre {
-		s.Send(l)
+		s.send1(l)
 	}
-	return s
+}
+
+// swap makes the second-opinion solver the primary one (and vice versa): used when the primary keeps
+// answering unknown on this job's queries while the other decides them.  The assertion stack is replayed.
+func (s *Solver) swap() {
+	s.dropAlt()
+	if s.alt != nil {
+		s.alt.Close()
+		s.alt = nil
+	}
+	s.stop()
+	s.Name, s.AltName = s.AltName, s.Name
+	s.timeout, s.AltTimeout = s.AltTimeout, s.timeout
+	s.Swaps++
+	s.start()
+	for i, fr := range s.frames {
+		if i > 0 {
+			s.send1("(push 1)")
+		}
+		for _, l := range fr {
+			s.send1(l)
+		}
+	}
+}
+
+func (s *Solver) stop() {
+	if s.in != nil {
+		s.in.Close()
+	}
+	if s.cmd != nil {
+		cmd := s.cmd
+		done := make(chan struct{})
+		go func() { cmd.Wait(); close(done) }()
+		select {
+		case <-done:
+		case <-time.After(300 * time.Millisecond):
+			cmd.Process.Kill()
+		}
+	}
 }
 
 var slowQ = func() time.Duration {
@@ -79,6 +138,29 @@ var slowQ = func() time.Duration {
 }()
 
 func (s *Solver) Send(l string) {
+	s.dropAlt()
+	switch {
+	case l == "(push 1)":
+		s.frames = append(s.frames, nil)
+	case l == "(pop 1)":
+		if len(s.frames) > 1 {
+			s.frames = s.frames[:len(s.frames)-1]
+		}
+	case strings.HasPrefix(l, "(check-sat"), strings.HasPrefix(l, "(get-value"), strings.HasPrefix(l, "(set-option"), strings.HasPrefix(l, "(set-logic"):
+	default:
+		s.frames[len(s.frames)-1] = append(s.frames[len(s.frames)-1], l)
+	}
+	s.send1(l)
+}
+
+func (s *Solver) dropAlt() {
+	if s.altPending && s.alt != nil {
+		s.alt.send1("(pop 1)")
+	}
+	s.altPending, s.altSat = false, false
+}
+
+func (s *Solver) send1(l string) {
 	if s.dead {
 		return
 	}
@@ -94,18 +176,11 @@ func (s *Solver) Send(l string) {
 }
 
 func (s *Solver) Close() {
-	if s.in != nil {
-		s.in.Close()
+	if s.alt != nil {
+		s.alt.Close()
+		s.alt = nil
 	}
-	if s.cmd != nil {
-		done := make(chan struct{})
-		go func() { s.cmd.Wait(); close(done) }()
-		select {
-		case <-done:
-		case <-time.After(2 * time.Second):
-			s.cmd.Process.Kill()
-		}
-	}
+	s.stop()
 	if s.log != nil {
 		s.log.Close()
 	}
@@ -135,13 +210,63 @@ func (s *Solver) readLine(limit time.Duration) (string, bool) {
 }
 
 func (s *Solver) limit() time.Duration {
+	if s.AltName != "" {
+		return time.Duration(s.timeout)*time.Millisecond + 2*time.Second
+	}
 	return time.Duration(s.timeout)*time.Millisecond + 10*time.Second
 }
 
 // Check returns "sat", "unsat" or "unknown" (timeouts, errors, dead solver).
 func (s *Solver) Check() string {
+	if s.AltName != "" {
+		s.dropAlt()
+	}
+	r := s.check1()
+	if r != "unknown" || s.AltName == "" {
+		s.altStreak = 0
+		return r
+	}
+	if s.altStreak >= 2 && s.Swaps < 3 {
+		// the primary keeps failing where the other solver succeeds: change roles for the rest of the job
+		s.altStreak = 0
+		s.swap()
+		if r = s.check1(); r != "unknown" {
+			return r
+		}
+	}
+	// second opinion
 	t0 := time.Now()
-	s.Send("(check-sat)")
+	if s.alt == nil || s.alt.dead {
+		if s.alt != nil {
+			s.alt.Close()
+		}
+		s.alt = NewSolver(s.AltName, s.AltTimeout, "")
+	}
+	a := s.alt
+	a.send1("(push 1)")
+	for _, fr := range s.frames {
+		for _, l := range fr {
+			a.send1(l)
+		}
+	}
+	s.altPending = true
+	s.AltQueries++
+	r2 := a.check1()
+	s.AltDur += time.Since(t0)
+	s.Dur += time.Since(t0)
+	if r2 != "unknown" {
+		s.AltDecided++
+		s.altStreak++
+	} else {
+		s.altStreak = 0
+	}
+	s.altSat = r2 == "sat"
+	return r2
+}
+
+func (s *Solver) check1() string {
+	t0 := time.Now()
+	s.send1("(check-sat)")
 	s.Queries++
 	defer func() {
 		d := time.Since(t0)
@@ -213,6 +338,9 @@ func (s *Solver) readSexp() string {
 
 // GetValues asks for the values of the given terms after a sat answer.
 func (s *Solver) GetValues(terms []string) map[string]string {
+	if s.altSat && s.alt != nil {
+		return s.alt.GetValues(terms)
+	}
 	res := map[string]string{}
 	const chunk = 200
 	for i := 0; i < len(terms); i += chunk {
@@ -220,7 +348,7 @@ func (s *Solver) GetValues(terms []string) map[string]string {
 		if j > len(terms) {
 			j = len(terms)
 		}
-		s.Send("(get-value (" + strings.Join(terms[i:j], " ") + "))")
+		s.send1("(get-value (" + strings.Join(terms[i:j], " ") + "))")
 		txt := s.readSexp()
 		if strings.HasPrefix(txt, "(error") {
 			s.Errors++
